@@ -341,6 +341,155 @@ Lemma read_inr o e : read_reply o = inr e ->
   (e = ASmtp /\ (o = Malformed \/ o = Disconnect \/ o = BadCode)) \/ (e = ATimeout /\ o = Stall).
 Proof. destruct o; cbn; intros [= <-]; tauto. Qed.
 
+
+(* ---- the result mapping: a dict keyed by address ---- *)
+Section DictLemmas.
+  Context {V : Type}.
+  Lemma dget_dset (d : list (N * V)) k v k' :
+    dget (dset d k v) k' = if k =? k' then Some v else dget d k'.
+  Proof.
+    induction d as [|[k0 v0] d IH]; cbn; [reflexivity|].
+    destruct (k0 =? k) eqn:E; cbn.
+    - apply N.eqb_eq in E. subst. destruct (k =? k'); reflexivity.
+    - rewrite IH. destruct (k0 =? k') eqn:E'; [|reflexivity].
+      apply N.eqb_eq in E'. subst. now rewrite N.eqb_sym, E.
+  Qed.
+  (* the value the last update for key a carries *)
+  Fixpoint last_match (a : N) (ups : list (N * V)) : option V :=
+    match ups with
+    | [] => None
+    | (k, v) :: ups' =>
+        match last_match a ups' with
+        | Some w => Some w
+        | None => if k =? a then Some v else None
+        end
+    end.
+  Lemma dget_apply : forall ups (d : list (N * V)) a,
+    dget (apply_updates d ups) a = match last_match a ups with Some v => Some v | None => dget d a end.
+  Proof.
+    unfold apply_updates. induction ups as [|[k v] ups IH]; intros d a; cbn [fold_left last_match fst snd]; [reflexivity|].
+    rewrite IH. destruct (last_match a ups); [reflexivity|]. rewrite dget_dset. destruct (k =? a); reflexivity.
+  Qed.
+  Lemma last_match_Some a ups v : last_match a ups = Some v -> In (a, v) ups.
+  Proof.
+    induction ups as [|[k w] ups IH]; cbn; [discriminate|].
+    destruct (last_match a ups) as [u|].
+    - intros [= <-]. right. now apply IH.
+    - destruct (k =? a) eqn:E; [|discriminate]. apply N.eqb_eq in E. subst. intros [= <-]. now left.
+  Qed.
+  Lemma last_match_None a ups : last_match a ups = None -> forall v, ~ In (a, v) ups.
+  Proof.
+    induction ups as [|[k w] ups IH]; cbn; [intros _ v []|].
+    destruct (last_match a ups) as [u|]; [discriminate|].
+    destruct (k =? a) eqn:E; [discriminate|]. intros _ v [H|H].
+    - injection H as -> _. rewrite N.eqb_refl in E. discriminate.
+    - now apply (IH eq_refl v).
+  Qed.
+  Lemma last_match_app a u1 u2 :
+    last_match a (u1 ++ u2) = match last_match a u2 with Some v => Some v | None => last_match a u1 end.
+  Proof.
+    induction u1 as [|[k w] u1 IH]; cbn; [destruct (last_match a u2); reflexivity|].
+    rewrite IH. destruct (last_match a u2); reflexivity.
+  Qed.
+End DictLemmas.
+
+Lemma nth_error_combine {A B} : forall (l1 : list A) (l2 : list B) j,
+  nth_error (combine l1 l2) j =
+  match nth_error l1 j, nth_error l2 j with Some a, Some b => Some (a, b) | _, _ => None end.
+Proof.
+  induction l1 as [|a l1 IH]; intros [|b l2] [|j]; cbn; try reflexivity.
+  - destruct (nth_error l1 j); reflexivity.
+  - apply IH.
+Qed.
+Lemma in_combine_nth {A B} (l1 : list A) (l2 : list B) a b :
+  In (a, b) (combine l1 l2) <-> exists j, nth_error l1 j = Some a /\ nth_error l2 j = Some b.
+Proof.
+  split.
+  - intros H. apply In_nth_error in H. destruct H as [j Hj]. rewrite nth_error_combine in Hj.
+    destruct (nth_error l1 j) as [a'|] eqn:E1; [|discriminate].
+    destruct (nth_error l2 j) as [b'|] eqn:E2; [|discriminate]. injection Hj as -> ->. eauto.
+  - intros (j & H1 & H2). apply (nth_error_In _ j). now rewrite nth_error_combine, H1, H2.
+Qed.
+
+Lemma dget_fromkeys_aux : forall addrs (d : list (N * option tres)) a,
+  dget (fold_left (fun d a => match dget d a with Some _ => d | None => dset d a None end) addrs d) a =
+  match dget d a with
+  | Some v => Some v
+  | None => if existsb (N.eqb a) addrs then Some None else None
+  end.
+Proof.
+  induction addrs as [|b addrs IH]; intros d a; cbn [fold_left existsb]; [destruct (dget d a); reflexivity|].
+  rewrite IH. destruct (dget d b) as [vb|] eqn:Eb.
+  - destruct (dget d a) as [va|] eqn:Ea; [reflexivity|].
+    destruct (a =? b) eqn:E; [apply N.eqb_eq in E; subst; congruence | reflexivity].
+  - rewrite dget_dset. destruct (b =? a) eqn:E.
+    + apply N.eqb_eq in E. subst. rewrite Eb, N.eqb_refl. reflexivity.
+    + rewrite N.eqb_sym, E. cbn. reflexivity.
+Qed.
+Lemma dget_fromkeys addrs a :
+  dget (fromkeys addrs) a = if existsb (N.eqb a) addrs then Some None else None.
+Proof. unfold fromkeys. now rewrite dget_fromkeys_aux. Qed.
+Lemma existsb_eqb_nth addrs a j : nth_error addrs j = Some a -> existsb (N.eqb a) addrs = true.
+Proof.
+  intros H. apply existsb_exists. exists a. split; [eapply nth_error_In; eauto | apply N.eqb_refl].
+Qed.
+
+Lemma in_rcpt_updates addrs errs a w :
+  In (a, w) (rcpt_updates addrs errs) <->
+  exists c j, w = Some (TFailed c) /\ nth_error addrs j = Some a /\ nth_error errs j = Some (Some c).
+Proof.
+  unfold rcpt_updates. rewrite in_flat_map. split.
+  - intros ([a' o] & Hin & Hx). cbn in Hx. destruct o as [c|]; [|destruct Hx].
+    destruct Hx as [Hx|[]]. injection Hx as -> <-. apply in_combine_nth in Hin.
+    destruct Hin as (j & H1 & H2). eauto 6.
+  - intros (c & j & -> & H1 & H2). exists (a, Some c). split; [apply in_combine_nth; eauto | now left].
+Qed.
+
+(* SMTP: what the mapping holds for an address after the RCPT errors were entered by position *)
+Lemma smtp_table_char addrs errs a i :
+  length errs = length addrs -> nth_error addrs i = Some a ->
+  let r := tget (apply_updates (fromkeys addrs) (rcpt_updates addrs errs)) a in
+  (exists c j, r = TFailed c /\ nth_error addrs j = Some a /\ nth_error errs j = Some (Some c)) \/
+  (r = TDelivered /\ forall j, nth_error addrs j = Some a -> nth_error errs j = Some None).
+Proof.
+  intros Hlen Hi. cbn zeta. unfold tget. rewrite dget_apply.
+  destruct (last_match a (rcpt_updates addrs errs)) as [w|] eqn:E.
+  - apply last_match_Some in E. apply in_rcpt_updates in E. destruct E as (c & j & -> & H1 & H2).
+    left. eauto 6.
+  - rewrite dget_fromkeys, (existsb_eqb_nth _ _ _ Hi). right. split; [reflexivity|].
+    intros j Hj. destruct (nth_error errs j) as [[c|]|] eqn:Ej; [|reflexivity|].
+    + exfalso. apply (last_match_None _ _ E (Some (TFailed c))). apply in_rcpt_updates. eauto 6.
+    + exfalso. apply nth_error_None in Ej. assert (j < length addrs)%nat by (apply nth_error_Some; congruence). lia.
+Qed.
+
+(* `dict(zip(recipients, rcpt_errors))`: the class of some occurrence of the same address *)
+Lemma fail_table_char addrs (l : list cls) a i :
+  length l = length addrs -> nth_error addrs i = Some a ->
+  exists c j, tget (apply_updates [] (combine addrs (map (fun c => Some (TFailed c)) l))) a = TFailed c /\
+              nth_error addrs j = Some a /\ nth_error l j = Some c.
+Proof.
+  intros Hlen Hi. unfold tget. rewrite dget_apply.
+  destruct (last_match a (combine addrs (map (fun c => Some (TFailed c)) l))) as [w|] eqn:E.
+  - apply last_match_Some in E. apply in_combine_nth in E. destruct E as (j & H1 & H2).
+    rewrite nth_error_map in H2. destruct (nth_error l j) as [c|] eqn:Ej; [|discriminate].
+    injection H2 as <-. eauto 6.
+  - exfalso. destruct (nth_error l i) as [c|] eqn:Ei.
+    + apply (last_match_None _ _ E (Some (TFailed c))). apply in_combine_nth. exists i.
+      split; [exact Hi|]. now rewrite nth_error_map, Ei.
+    + apply nth_error_None in Ei. assert (i < length addrs)%nat by (apply nth_error_Some; congruence). lia.
+Qed.
+
+Lemma read_table_nth d addrs i r :
+  nth_error (read_table d addrs) i = Some r -> exists a, nth_error addrs i = Some a /\ r = tget d a.
+Proof.
+  unfold read_table. rewrite nth_error_map. destruct (nth_error addrs i) as [a|]; [|discriminate].
+  intros [= <-]. eauto.
+Qed.
+Lemma read_table_length d addrs : length (read_table d addrs) = length addrs.
+Proof. apply map_length. Qed.
+Lemma m_addrs_length msg : length (m_addrs msg) = length (m_rcpts msg).
+Proof. unfold m_addrs, m_rcpts. now rewrite !map_length. Qed.
+
 Section Smtp.
   Variable sc : script.
   Variable cfg : config.
@@ -380,19 +529,30 @@ Section Smtp.
     match c with Perm => PermCause k | Trans => TransCause k end.
   Definition nonerr (stg : stage) : Prop := reply sc stg = R2 \/ reply sc stg = R3.
   Definition eodix (i : N) : N := if c_lmtp cfg then i else 0.
-  Definition RJust (k i : N) (r : rres) : Prop :=
+  (* positions i and j of envelope.recipients hold the same address *)
+  Definition own (msg : message) (i j : nat) : Prop :=
+    exists a, nth_error (m_addrs msg) i = Some a /\ nth_error (m_addrs msg) j = Some a.
+  (* the RCPT at position j, or the data reply owned by it, was an error reply of class c *)
+  Definition occ_failed (k : N) (j : nat) (c : cls) : Prop :=
+    exists stg cl, (stg = Rcpt k (N.of_nat j) \/ stg = Eod k (N.of_nat j)) /\
+                   read_reply (reply sc stg) = inl cl /\ is_error cl = true /\ factory cl = c.
+  (* what the mapping may hold for the address at position i: justified by the replies to the
+     occurrences of that same address (and the message replies) only *)
+  Definition RJust (k : N) (msg : message) (i : nat) (r : tres) : Prop :=
     match r with
-    | Delivered =>
-        nonerr (Mail k) /\ nonerr (Data k) /\ nonerr (Rcpt k i) /\
-        ((c_lmtp cfg = true -> reply sc (Rcpt k i) = R2) -> nonerr (Eod k (eodix i)))
-    | Failed c =>
-        exists stg cl, (stg = Rcpt k i \/ stg = Eod k i) /\
-                       read_reply (reply sc stg) = inl cl /\ is_error cl = true /\ factory cl = c
+    | TDelivered =>
+        nonerr (Mail k) /\ nonerr (Data k) /\
+        if c_lmtp cfg
+        then (exists j, own msg i j /\ reply sc (Rcpt k (N.of_nat j)) = R2 /\ nonerr (Eod k (N.of_nat j))) \/
+             (forall j, own msg i j -> reply sc (Rcpt k (N.of_nat j)) = R3)
+        else (forall j, own msg i j -> nonerr (Rcpt k (N.of_nat j))) /\ nonerr (Eod k 0)
+    | TFailed c => exists j, own msg i j /\ occ_failed k j c
+    | TMissing => False
     end.
   Definition Just (k : N) (r : mres) : Prop :=
     match r with
-    | MMap l => (exists msg, msg_at k = Some msg /\ length l = length (m_rcpts msg)) /\
-                forall i r, nth_error l i = Some r -> RJust k (N.of_nat i) r
+    | MMap l => exists msg, msg_at k = Some msg /\ length l = length (m_rcpts msg) /\
+                            forall i r, nth_error l i = Some r -> RJust k msg i r
     | MExc c => ExcJust k c
     | MOther => ForeignCause k
     end.
@@ -403,7 +563,7 @@ Section Smtp.
     | ARelay c => ExcJust k c
     | ARelayRcpts c l =>
         ExcJust k c /\ (exists msg, msg_at k = Some msg /\ length l = length (m_rcpts msg)) /\
-        forall i d, nth_error l i = Some d -> RJust k (N.of_nat i) (Failed d)
+        forall i d, nth_error l i = Some d -> occ_failed k i d
     | ASmtp => exists stg, rel k stg /\
                            (reply sc stg = Malformed \/ reply sc stg = Disconnect \/ reply sc stg = BadCode)
     | ATimeout => (exists stg, rel k stg /\ reply sc stg = Stall) \/ c_conn cfg = ConnTimeout
@@ -966,8 +1126,7 @@ Section Smtp.
   Qed.
 
   Lemma failed_just k rs errs l j d :
-    errs_ok k 0 rs errs -> errs = map Some l -> nth_error l j = Some d ->
-    RJust k (N.of_nat j) (Failed d).
+    errs_ok k 0 rs errs -> errs = map Some l -> nth_error l j = Some d -> occ_failed k j d.
   Proof.
     intros He -> Hn.
     assert (Hn' : nth_error (map Some l) j = Some (Some d)) by (rewrite nth_error_map, Hn; reflexivity).
@@ -976,11 +1135,13 @@ Section Smtp.
     destruct (is_error c) eqn:Ee; [|discriminate]. injection Ho as ->.
     exists (Rcpt k (N.of_nat j)), c. auto.
   Qed.
-  Lemma failed_excjust k i d : RJust k i (Failed d) -> ExcJust k d.
+  Lemma occ_failed_excjust k j d : occ_failed k j d -> ExcJust k d.
   Proof.
     intros (stg & cl & Hs & Hc & He & <-). eapply err_cause; eauto.
     destruct Hs as [->| ->]; right; reflexivity.
   Qed.
+  Lemma failed_excjust k msg i d : RJust k msg i (TFailed d) -> ExcJust k d.
+  Proof. intros (j & _ & H). eapply occ_failed_excjust; eauto. Qed.
 
   Lemma check_replies_spec k msg s :
     Inv k s -> msg_at k = Some msg ->
@@ -1004,13 +1165,13 @@ Section Smtp.
       destruct l as [|c0 l].
       + apply ok_raise. apply EA_foreign; try apply HI. exists msg. split; [exact Hm|].
         destruct (m_rcpts msg); [reflexivity | discriminate].
-      + assert (H0 : RJust k 0 (Failed c0)) by (apply (failed_just k _ _ _ 0%nat c0 He Hmap); reflexivity).
+      + assert (H0 : occ_failed k 0 c0) by (apply (failed_just k _ _ _ 0%nat c0 He Hmap); reflexivity).
         destruct (mixed c0 l).
         * apply ok_raise. split.
-          -- split; [eapply failed_excjust; eauto|]. split; [exists msg; auto|].
+          -- split; [eapply occ_failed_excjust; eauto|]. split; [exists msg; auto|].
              intros i d Hn. eapply failed_just; eauto.
           -- split; [apply HI|]. split; [apply HI|]. split; [apply HI|]. intros _; exact HI.
-        * apply ok_raise. apply EA_relay; [exact HI|]. eapply failed_excjust; eauto.
+        * apply ok_raise. apply EA_relay; [exact HI|]. eapply occ_failed_excjust; eauto.
     - eapply ok_weaken; [apply (check_stage_spec _ k (Data k) s HI); auto; right; reflexivity| |auto].
       intros ? s' [-> Hnd]. auto.
   Qed.
@@ -1256,87 +1417,65 @@ Section Smtp.
     intros HI Hj. unfold ok, set_result. split; [now apply Inv_set_result|]. cbn. auto.
   Qed.
 
-  Lemma set_failure_spec k e s :
-    EA k e s -> is_relay e = true ->
-    ok (set_failure k e) s (fun _ s' => Inv k s' /\ pend s' = pend s) (EA k).
+  Lemma set_failure_spec k msg e s :
+    EA k e s -> is_relay e = true -> msg_at k = Some msg ->
+    ok (set_failure k msg e) s (fun _ s' => Inv k s' /\ pend s' = pend s) (EA k).
   Proof.
-    intros (Hca & _ & _ & _ & HI) Hr. specialize (HI Hr). destruct e; try discriminate; cbn [set_failure].
+    intros (Hca & _ & _ & _ & HI) Hr Hm. specialize (HI Hr). destruct e; try discriminate; cbn [set_failure].
     - eapply ok_weaken; [apply (set_result_spec k s (MExc c) (EA k) HI Hca)| |auto]. intros ? s' H. split; apply H.
-    - destruct Hca as (Hc & (msg & Hm & Hlen) & Hall).
-      eapply ok_weaken; [apply (set_result_spec k s (MMap (map Failed l)) (EA k) HI)| |auto].
-      + split; [exists msg; split; [exact Hm | now rewrite map_length]|].
-        intros i r Hn. rewrite nth_error_map in Hn. destruct (nth_error l i) as [d|] eqn:E; [|discriminate].
-        injection Hn as <-. now apply Hall.
+    - destruct Hca as (Hc & (msg' & Hm' & Hlen) & Hall). rewrite Hm in Hm'. injection Hm' as <-.
+      eapply ok_weaken; [apply (set_result_spec k s _ (EA k) HI)| |auto].
+      + exists msg. split; [exact Hm|]. split; [now rewrite read_table_length, m_addrs_length|].
+        intros i r Hn. apply read_table_nth in Hn. destruct Hn as (a & Ha & ->).
+        destruct (fail_table_char (m_addrs msg) l a i) as (c0 & j & -> & Hj & Hl);
+          [now rewrite m_addrs_length | exact Ha|].
+        exists j. split; [exists a; auto | now apply Hall].
       + intros ? s' H. split; apply H.
   Qed.
 
-  (* the per-recipient table the LMTP client builds *)
-  Lemma lmtp_results_spec k : forall errs i rs owners s (Q : list rres * bool -> st -> Prop),
-    filled_ok s -> errs_ok k i rs errs ->
-    (forall j, In j owners -> isfilled s (Eod k j)) ->
-    (forall j, In j owners -> reply sc (Rcpt k j) = R2) ->
-    (forall l b, length l = length errs ->
-       (forall j r, nth_error l j = Some r ->
-          let ix := i + N.of_nat j in
-          match r with
-          | Delivered => nonerr (Rcpt k ix) /\ (In ix owners -> nonerr (Eod k ix)) /\
-                         (~ In ix owners -> exists o, nth_error errs j = Some o /\ o = None)
-          | Failed c => exists stg cl, (stg = Rcpt k ix \/ stg = Eod k ix) /\
-                          read_reply (reply sc stg) = inl cl /\ is_error cl = true /\ factory cl = c
-          end) -> Q (l, b) s) ->
-    ok (lmtp_results k i errs owners) s Q (EA k).
+  (* the updates the LMTP data replies make to the mapping *)
+  Lemma lmtp_data_spec k addrs : forall owners s (Q : list (N * option tres) * bool -> st -> Prop),
+    filled_ok s ->
+    (forall j, In j owners -> isfilled s (Eod k j) /\ (N.to_nat j < length addrs)%nat) ->
+    (forall ups had,
+       (forall a w, In (a, w) ups ->
+          exists j cl, In j owners /\ nth_error addrs (N.to_nat j) = Some a /\
+                       read_reply (reply sc (Eod k j)) = inl cl /\
+                       w = Some (if is_error cl then TFailed (factory cl) else TDelivered)) ->
+       (forall j a, In j owners -> nth_error addrs (N.to_nat j) = Some a -> exists w, In (a, w) ups) ->
+       Q (ups, had) s) ->
+    ok (lmtp_data k addrs owners) s Q (EA k).
   Proof.
-    induction errs as [|o errs IH]; intros i rs owners s Q Hf He Hown Hown2 HQ; cbn [lmtp_results].
-    - apply ok_ret. apply HQ; [reflexivity|]. intros j r Hn. destruct j; discriminate.
-    - destruct rs as [|b rs]; [destruct He|]. cbn [errs_ok] in He. destruct He as [(c & Hc & Ho) He].
-      eapply ok_bind; [apply (IH (i + 1) rs owners s (fun r s' => s' = s /\
-          length (fst r) = length errs /\
-          forall j r0, nth_error (fst r) j = Some r0 ->
-            let ix := i + 1 + N.of_nat j in
-            match r0 with
-            | Delivered => nonerr (Rcpt k ix) /\ (In ix owners -> nonerr (Eod k ix)) /\
-                           (~ In ix owners -> exists o, nth_error errs j = Some o /\ o = None)
-            | Failed c => exists stg cl, (stg = Rcpt k ix \/ stg = Eod k ix) /\
-                            read_reply (reply sc stg) = inl cl /\ is_error cl = true /\ factory cl = c
-            end)); auto|].
-      intros [l bb] s' (-> & Hl & Hall). cbn [fst snd] in *.
-      assert (Hshift : forall j r0, nth_error l j = Some r0 ->
-          let ix := i + N.of_nat (S j) in
-          match r0 with
-          | Delivered => nonerr (Rcpt k ix) /\ (In ix owners -> nonerr (Eod k ix)) /\
-                         (~ In ix owners -> exists o0, nth_error (o :: errs) (S j) = Some o0 /\ o0 = None)
-          | Failed c => exists stg cl, (stg = Rcpt k ix \/ stg = Eod k ix) /\
-                          read_reply (reply sc stg) = inl cl /\ is_error cl = true /\ factory cl = c
-          end).
-      { intros j r0 Hn. specialize (Hall j r0 Hn). cbn zeta in *.
-        replace (i + N.of_nat (S j)) with (i + 1 + N.of_nat j) by lia. exact Hall. }
-      destruct (existsb (N.eqb i) owners) eqn:Eown.
-      + apply existsb_exists in Eown. destruct Eown as (j0 & Hj0 & Ej0). apply N.eqb_eq in Ej0. subst j0.
-        unfold ok, mbind, code_of, mget.
-        destruct (lookup_code (filled s) (Eod k i)) as [ce|] eqn:Ece.
-        2:{ exfalso. apply (Hown i Hj0). exact Ece. }
-        pose proof (Hf _ _ Ece) as Hre. destruct (is_error ce) eqn:Eer; cbn.
-        * apply HQ; [cbn; now rewrite Hl|]. intros [|j] r Hn; cbn in Hn.
-          -- injection Hn as <-. cbn zeta. replace (i + N.of_nat 0) with i by lia.
-             exists (Eod k i), ce. auto.
-          -- now apply Hshift.
-        * apply HQ; [cbn; now rewrite Hl|]. intros [|j] r Hn; cbn in Hn.
-          -- injection Hn as <-. cbn zeta. replace (i + N.of_nat 0) with i by lia.
-             split; [|split].
-             ++ left. now apply Hown2.
-             ++ intros _. eapply noerr_nonerr; eauto.
-             ++ intros Hno. contradiction.
-          -- now apply Hshift.
-      + apply ok_ret. apply HQ; [cbn; now rewrite Hl|]. intros [|j] r Hn; cbn in Hn.
-        * injection Hn as <-. cbn zeta. replace (i + N.of_nat 0) with i by lia.
-          assert (Hni : ~ In i owners).
-          { intros Hi. assert (existsb (N.eqb i) owners = true); [|congruence].
-            apply existsb_exists. exists i. split; [exact Hi | apply N.eqb_refl]. }
-          unfold of_err. rewrite Ho. destruct (is_error c) eqn:Ec'.
-          -- exists (Rcpt k i), c. auto.
-          -- split; [eapply noerr_nonerr; eauto|]. split; [intros Hi; contradiction|].
-             intros _. exists None. split; reflexivity.
-        * now apply Hshift.
+    induction owners as [|j ow IH]; intros s Q Hf Hown HQ; cbn [lmtp_data].
+    - apply ok_ret. apply HQ; [intros a w [] | intros j a []].
+    - destruct (Hown j (or_introl eq_refl)) as [Hfl Hlt].
+      unfold ok, mbind at 1, code_of, mget.
+      destruct (lookup_code (filled s) (Eod k j)) as [c|] eqn:Ec; [|contradiction].
+      destruct (nth_error addrs (N.to_nat j)) as [a0|] eqn:Ea.
+      2:{ exfalso. apply nth_error_None in Ea. lia. }
+      pose proof (Hf _ _ Ec) as Hrd.
+      fold (ok (r <- lmtp_data k addrs ow ;;
+                if is_error c then mret ((a0, Some (TFailed (factory c))) :: fst r, true)
+                else mret ((a0, Some TDelivered) :: fst r, snd r)) s Q (EA k)).
+      eapply ok_bind; [apply (IH s (fun r s' => s' = s /\
+          (forall a w, In (a, w) (fst r) ->
+             exists j cl, In j ow /\ nth_error addrs (N.to_nat j) = Some a /\
+                          read_reply (reply sc (Eod k j)) = inl cl /\
+                          w = Some (if is_error cl then TFailed (factory cl) else TDelivered)) /\
+          (forall j a, In j ow -> nth_error addrs (N.to_nat j) = Some a -> exists w, In (a, w) (fst r))) Hf)|].
+      + intros j' Hj'. apply Hown. now right.
+      + intros ups had H1 H2. cbn [fst]. auto.
+      + intros [ups had] s' (-> & H1 & H2). cbn [fst snd] in *.
+        assert (G : forall w0 had', w0 = Some (if is_error c then TFailed (factory c) else TDelivered) ->
+                      Q ((a0, w0) :: ups, had') s).
+        { intros w0 had' ->. apply HQ.
+          - intros a w [Hx|Hx].
+            + injection Hx as <- <-. exists j, c. split; [now left | auto].
+            + destruct (H1 a w Hx) as (j' & cl & Hj' & Hrest). exists j', cl. split; [now right | exact Hrest].
+          - intros j' a [<-|Hj'] Hn.
+            + rewrite Ea in Hn. injection Hn as <-. eexists. left. reflexivity.
+            + destruct (H2 j' a Hj' Hn) as [w Hw]. exists w. now right. }
+        destruct (is_error c) eqn:Ee; apply ok_ret; apply G; reflexivity.
   Qed.
 
   Lemma rstages_in k : forall rs i j, (j < length rs)%nat -> In (Rcpt k (i + N.of_nat j)) (rstages k i rs).
@@ -1344,6 +1483,14 @@ Section Smtp.
     induction rs as [|b rs IH]; intros i j Hj; cbn in *; [lia|].
     destruct j as [|j]; [left; f_equal; lia|]. right.
     replace (i + N.of_nat (S j)) with (i + 1 + N.of_nat j) by lia. apply IH. lia.
+  Qed.
+
+  Lemma rstages_in_inv k : forall rs i j, In (Rcpt k j) (rstages k i rs) -> i <= j /\ (N.to_nat (j - i) < length rs)%nat.
+  Proof.
+    induction rs as [|b rs IH]; intros i j; cbn; [intros []|]. intros [H|H].
+    - injection H as <-. split; [lia|]. replace (i - i) with 0 by lia. cbn. lia.
+    - apply IH in H. destruct H as [H1 H2]. split; [lia|]. replace (j - i) with (1 + (j - (i + 1))) by lia.
+      rewrite N2Nat.inj_add. cbn. lia.
   Qed.
 
   Lemma deliver_spec k msg s :
@@ -1372,42 +1519,74 @@ Section Smtp.
         split; [exact Hn2|]. split; [exact He|].
         destruct (c_lmtp cfg); [|exact Hr2]. rewrite Hl1 in Hr2. exact Hr2.
       + intros e s1 He. destruct (is_relay e) eqn:Er; [|exact He].
-        eapply ok_bind; [apply (set_failure_spec k e s1 He Er)|]. intros ? s2 [HI2 _].
+        eapply ok_bind; [apply (set_failure_spec k msg e s1 He Er Hm)|]. intros ? s2 [HI2 _].
         eapply ok_bind; [apply (r_rset_spec k s2 HI2)|]. intros ? s3 (HI3 & Hp3 & Hl3).
         apply ok_ret. auto.
     - intros [[errs owners]|] s1 (HI1 & Hp1 & Hl1 & Hr1); [|apply ok_ret; auto].
       destruct Hr1 as (Hn1 & Hn2 & He & Hown).
       pose proof (errs_ok_length _ _ _ _ He) as Hlen.
+      assert (Hal : length errs = length (m_addrs msg)) by (rewrite m_addrs_length; exact Hlen).
+      (* what an entry of the per-position error list says about the script *)
+      assert (Herr : forall j c, nth_error errs j = Some (Some c) -> occ_failed k j c).
+      { intros j c Hn. destruct (errs_ok_nth k rs 0 errs j _ He Hn) as (cl & Hc & Ho).
+        replace (0 + N.of_nat j) with (N.of_nat j) in Hc by lia.
+        destruct (is_error cl) eqn:Ee; [|discriminate]. injection Ho as ->.
+        exists (Rcpt k (N.of_nat j)), cl. auto. }
+      assert (Hnoerr : forall j, nth_error errs j = Some None -> nonerr (Rcpt k (N.of_nat j))).
+      { intros j Hn. destruct (errs_ok_nth k rs 0 errs j _ He Hn) as (cl & Hc & Ho).
+        replace (0 + N.of_nat j) with (N.of_nat j) in Hc by lia.
+        destruct (is_error cl) eqn:Ee; [discriminate|]. eapply noerr_nonerr; eauto. }
       destruct (c_lmtp cfg) eqn:Elm.
       + destruct Hown as [Hown1 Hown2].
-        eapply ok_bind; [apply (lmtp_results_spec k errs 0 rs owners s1
-            (fun lb s' => s' = s1 /\ Just k (MMap (fst lb)))); auto; try apply HI1|].
-        * intros j Hj. now apply Hown1.
-        * intros l b Hl Hall. split; [reflexivity|]. cbn [fst]. split.
-          -- exists msg. split; [exact Hm|]. fold rs. congruence.
-          -- intros j r Hn. specialize (Hall j r Hn). cbn zeta in Hall.
-             replace (0 + N.of_nat j) with (N.of_nat j) in Hall by lia.
-             destruct r as [|c]; [|exact Hall]. destruct Hall as (Hr & Ho & _).
-             split; [exact Hn1|]. split; [exact Hn2|]. split; [exact Hr|].
-             intros H2. unfold eodix. rewrite Elm. apply Ho. apply Hown1. split; [|now apply H2].
-             assert (Hj : (j < length rs)%nat).
-             { rewrite <- Hlen, <- Hl. apply nth_error_Some. congruence. }
-             pose proof (rstages_in k rs 0 j Hj) as Hin.
-             now replace (0 + N.of_nat j) with (N.of_nat j) in Hin by lia.
-        * intros [l b] s2 [-> Hj]. cbn [fst snd] in *.
-          eapply ok_bind; [apply (set_result_spec k s1 (MMap l) (EA k) HI1 Hj)|].
-          intros ? s3 (HI3 & Hp3 & Hl3 & _). destruct b.
+        assert (Hbound : forall j, In j owners -> (N.to_nat j < length (m_addrs msg))%nat).
+        { intros j Hj. apply Hown1 in Hj. destruct Hj as [Hj _]. apply rstages_in_inv in Hj.
+          rewrite m_addrs_length. fold rs. replace (j - 0) with j in Hj by lia. apply Hj. }
+        eapply ok_bind; [apply (lmtp_data_spec k (m_addrs msg) owners s1
+            (fun dr s' => s' = s1 /\ Just k (MMap (read_table
+               (apply_updates (fromkeys (m_addrs msg)) (rcpt_updates (m_addrs msg) errs ++ fst dr)) (m_addrs msg)))));
+            [apply HI1 | intros j Hj; split; [now apply Hown2 | now apply Hbound] |]|].
+        * intros ups had Hu1 Hu2. split; [reflexivity|]. cbn [fst]. exists msg. split; [exact Hm|].
+          split; [now rewrite read_table_length, m_addrs_length|].
+          intros i r Hn. apply read_table_nth in Hn. destruct Hn as (a & Ha & ->).
+          unfold tget. rewrite dget_apply, last_match_app.
+          destruct (last_match a ups) as [w|] eqn:Elast.
+          -- (* a data reply for this address decides *)
+             apply last_match_Some in Elast. destruct (Hu1 a w Elast) as (j & cl & Hj & Hja & Hrd & ->).
+             assert (Hownij : own msg i (N.to_nat j)) by (exists a; auto).
+             destruct (is_error cl) eqn:Ee; cbn [RJust].
+             ++ exists (N.to_nat j). split; [exact Hownij|]. exists (Eod k j), cl.
+                rewrite N2Nat.id. auto.
+             ++ rewrite Elm. split; [exact Hn1|]. split; [exact Hn2|]. left. exists (N.to_nat j).
+                rewrite N2Nat.id. split; [exact Hownij|]. split; [apply Hown1, Hj | eapply noerr_nonerr; eauto].
+          -- (* no data reply for this address: the RCPT replies to its occurrences decide *)
+             pose proof (smtp_table_char (m_addrs msg) errs a i Hal Ha) as Hc. cbn zeta in Hc.
+             unfold tget in Hc. rewrite dget_apply in Hc.
+             destruct Hc as [(c & j & -> & Hj & He')|[-> Hall]]; cbn [RJust].
+             ++ exists j. split; [exists a; auto | now apply Herr].
+             ++ rewrite Elm. split; [exact Hn1|]. split; [exact Hn2|]. right.
+                intros j (a' & Ha' & Hj). rewrite Ha in Ha'. injection Ha' as <-.
+                specialize (Hnoerr j (Hall j Hj)). destruct Hnoerr as [H2|H3]; [|exact H3].
+                exfalso.
+                assert (Hjl : (j < length rs)%nat).
+                { rewrite <- Hlen, Hal. apply nth_error_Some. congruence. }
+                assert (Hin : In (N.of_nat j) owners).
+                { apply Hown1. split; [|exact H2]. pose proof (rstages_in k rs 0 j Hjl) as G.
+                  now replace (0 + N.of_nat j) with (N.of_nat j) in G by lia. }
+                destruct (Hu2 (N.of_nat j) a Hin) as [w Hw]; [now rewrite Nat2N.id|].
+                exact (last_match_None _ _ Elast w Hw).
+        * intros [ups had] s2 [-> Hj]. cbn [fst snd] in *.
+          eapply ok_bind; [apply (set_result_spec k s1 _ (EA k) HI1 Hj)|].
+          intros ? s3 (HI3 & Hp3 & Hl3 & _). destruct had.
           -- eapply ok_weaken; [apply (r_rset_spec k s3 HI3)| |auto]. intros ? s4 H; exact H.
           -- apply ok_ret. split; [exact HI3|]. split; congruence.
-      + eapply ok_weaken; [apply (set_result_spec k s1 (MMap (map of_err errs)) (EA k) HI1)| |auto].
-        * split; [exists msg; split; [exact Hm | rewrite map_length; exact Hlen]|].
-          intros j r Hn. rewrite nth_error_map in Hn. destruct (nth_error errs j) as [o|] eqn:Eo; [|discriminate].
-          injection Hn as <-. destruct (errs_ok_nth k rs 0 errs j o He Eo) as (c & Hc & ->).
-          replace (0 + N.of_nat j) with (N.of_nat j) in Hc by lia.
-          destruct (is_error c) eqn:Ec; cbn [of_err].
-          -- exists (Rcpt k (N.of_nat j)), c. auto.
-          -- split; [exact Hn1|]. split; [exact Hn2|]. split; [eapply noerr_nonerr; eauto|].
-             intros _. unfold eodix. rewrite Elm. exact Hown.
+      + eapply ok_weaken; [apply (set_result_spec k s1 _ (EA k) HI1)| |auto].
+        * exists msg. split; [exact Hm|]. split; [now rewrite read_table_length, m_addrs_length|].
+          intros i r Hn. apply read_table_nth in Hn. destruct Hn as (a & Ha & ->).
+          pose proof (smtp_table_char (m_addrs msg) errs a i Hal Ha) as Hc. cbn zeta in Hc.
+          destruct Hc as [(c & j & -> & Hj & He')|[-> Hall]]; cbn [RJust].
+          -- exists j. split; [exists a; auto | now apply Herr].
+          -- rewrite Elm. split; [exact Hn1|]. split; [exact Hn2|]. split; [|exact Hown].
+             intros j (a' & Ha' & Hj). rewrite Ha in Ha'. injection Ha' as <-. apply Hnoerr, Hall, Hj.
         * intros ? s2 (HI2 & Hp2 & Hl2 & _). split; [exact HI2|]. split; congruence.
   Qed.
 
@@ -1582,39 +1761,114 @@ End Smtp.
 (* ================================================================== *)
 (** * SMTP / LMTP: the property theorems *)
 
+(* the entry of the mapping read at position i of envelope.recipients *)
+Lemma final_entry r i f : final_of r i = f -> f <> FQueued -> f <> FOther -> f <> FNoResult ->
+  (exists c, r = Some (MExc c) /\ f = of_cls c) \/
+  (exists l t, r = Some (MMap l) /\ nth_error l i = Some t /\ f = of_tres t).
+Proof.
+  destruct r as [[l|c|]|]; cbn; intros <- H1 H2 H3; try congruence.
+  - destruct (nth_error l i) as [t|] eqn:E; [|congruence]. right. eauto.
+  - left. eauto.
+Qed.
 Lemma final_delivered r i : final_of r i = FDelivered ->
-  exists l, r = Some (MMap l) /\ nth_error l i = Some Delivered.
+  exists l, r = Some (MMap l) /\ nth_error l i = Some TDelivered.
 Proof.
   destruct r as [[l|c|]|]; cbn; try discriminate; [|destruct c; discriminate].
-  destruct (nth_error l i) as [[|c]|] eqn:E; try discriminate; [|destruct c; discriminate].
+  destruct (nth_error l i) as [[|c|]|] eqn:E; try discriminate; [|destruct c; discriminate].
   intros _. now exists l.
 Qed.
 
-(* soundness in the client's own terms: Reply.is_error decides *)
-Theorem smtp_success_sound_gen sc cfg msgs m i :
-  smtp_final sc cfg msgs m i = FDelivered ->
-  nonerr sc (Mail m) /\ nonerr sc (Data m) /\ nonerr sc (Rcpt m (N.of_nat i)) /\
-  ((c_lmtp cfg = true -> reply sc (Rcpt m (N.of_nat i)) = R2) -> nonerr sc (Eod m (eodix cfg (N.of_nat i)))).
+(* THE per-recipient statement, for envelopes in which an address may occur any number of times:
+   whatever the mapping holds for the address at position i is justified by the replies to the
+   occurrences of that same address (own) and by the message replies - never by a reply given
+   to a different address *)
+Theorem smtp_result_from_own_replies sc cfg msgs m l i t :
+  lookup_res (results (run_client sc cfg msgs)) m = Some (MMap l) -> nth_error l i = Some t ->
+  exists msg, msg_at msgs m = Some msg /\ length l = length (m_rcpts msg) /\ RJust sc cfg m msg i t.
 Proof.
-  unfold smtp_final. intros H. apply final_delivered in H. destruct H as (l & Hl & Hn).
-  pose proof (run_results_ok sc cfg msgs m (MMap l) Hl) as [_ Hj]. exact (Hj i Delivered Hn).
+  intros Hl Hn. destruct (run_results_ok sc cfg msgs m (MMap l) Hl) as (msg & Hm & Hlen & Hj).
+  exists msg. auto.
 Qed.
 
-(* the statement over the reply alphabet of the property: no 3xx reply where none is defined *)
-Definition no_r3 (sc : script) (cfg : config) (m i : N) : Prop :=
-  reply sc (Mail m) <> R3 /\ reply sc (Rcpt m i) <> R3 /\ reply sc (Eod m (eodix cfg i)) <> R3.
+(* soundness in the client's own terms (Reply.is_error decides), no assumption on duplicates *)
+Theorem smtp_success_sound_gen sc cfg msgs m i :
+  smtp_final sc cfg msgs m i = FDelivered ->
+  exists msg, msg_at msgs m = Some msg /\
+    nonerr sc (Mail m) /\ nonerr sc (Data m) /\
+    if c_lmtp cfg
+    then (exists j, own msg i j /\ reply sc (Rcpt m (N.of_nat j)) = R2 /\ nonerr sc (Eod m (N.of_nat j))) \/
+         (forall j, own msg i j -> reply sc (Rcpt m (N.of_nat j)) = R3)
+    else (forall j, own msg i j -> nonerr sc (Rcpt m (N.of_nat j))) /\ nonerr sc (Eod m 0).
+Proof.
+  unfold smtp_final. intros H. apply final_delivered in H. destruct H as (l & Hl & Hn).
+  destruct (smtp_result_from_own_replies sc cfg msgs m l i _ Hl Hn) as (msg & Hm & _ & Hj).
+  exists msg. split; [exact Hm | exact Hj].
+Qed.
 
-Theorem smtp_success_sound sc cfg msgs m i :
-  no_r3 sc cfg m (N.of_nat i) ->
+Lemma own_refl sc cfg msgs m i :
+  smtp_final sc cfg msgs m i = FDelivered -> forall msg, msg_at msgs m = Some msg -> own msg i i.
+Proof.
+  unfold smtp_final. intros H msg Hm. apply final_delivered in H. destruct H as (l & Hl & Hn).
+  destruct (run_results_ok sc cfg msgs m (MMap l) Hl) as (msg' & Hm' & Hlen & _).
+  unfold msg_at in *. rewrite Hm in Hm'. injection Hm' as <-.
+  assert (Hi : (i < length (m_addrs msg))%nat).
+  { rewrite m_addrs_length, <- Hlen. apply nth_error_Some. congruence. }
+  destruct (nth_error (m_addrs msg) i) as [a|] eqn:E; [exists a; auto|].
+  apply nth_error_None in E. lia.
+Qed.
+Lemma own_nodup msg i j : NoDup (m_addrs msg) -> own msg i j -> j = i.
+Proof.
+  intros Hnd (a & Hi & Hj). symmetry. eapply (proj1 (NoDup_nth_error (m_addrs msg)) Hnd).
+  - apply nth_error_Some. congruence.
+  - congruence.
+Qed.
+
+(* the statement over the reply alphabet of the property: no 3xx where the protocol defines none,
+   at the occurrences of this address *)
+Definition no_r3_own (sc : script) (cfg : config) (m : N) (msg : message) (i : nat) : Prop :=
+  reply sc (Mail m) <> R3 /\
+  forall j, own msg i j -> reply sc (Rcpt m (N.of_nat j)) <> R3 /\
+                           reply sc (Eod m (eodix cfg (N.of_nat j))) <> R3.
+
+Theorem smtp_success_sound sc cfg msgs m msg i :
+  msg_at msgs m = Some msg -> no_r3_own sc cfg m msg i ->
+  smtp_final sc cfg msgs m i = FDelivered ->
+  reply sc (Mail m) = R2 /\ (reply sc (Data m) = R2 \/ reply sc (Data m) = R3) /\
+  if c_lmtp cfg
+  then exists j, own msg i j /\ reply sc (Rcpt m (N.of_nat j)) = R2 /\ reply sc (Eod m (N.of_nat j)) = R2
+  else (forall j, own msg i j -> reply sc (Rcpt m (N.of_nat j)) = R2) /\ reply sc (Eod m 0) = R2.
+Proof.
+  intros Hm (H1 & H2) H. pose proof (own_refl sc cfg msgs m i H msg Hm) as Hii.
+  apply smtp_success_sound_gen in H. destruct H as (msg' & Hm' & Hml & Hd & Hr).
+  unfold msg_at in *. rewrite Hm in Hm'. injection Hm' as <-.
+  split; [destruct Hml; [assumption | contradiction]|]. split; [exact Hd|].
+  unfold eodix in H2. destruct (c_lmtp cfg).
+  - destruct Hr as [(j & Hj & Hr2 & He)|Hall].
+    + exists j. split; [exact Hj|]. split; [exact Hr2|]. destruct He; [assumption|].
+      exfalso. now apply (proj2 (H2 j Hj)).
+    + exfalso. apply (proj1 (H2 i Hii)). now apply Hall.
+  - destruct Hr as [Hall He]. split.
+    + intros j Hj. destruct (Hall j Hj); [assumption|]. exfalso. now apply (proj1 (H2 j Hj)).
+    + destruct He; [assumption|]. exfalso. now apply (proj2 (H2 i Hii)).
+Qed.
+
+(* pairwise distinct recipients: the statement about position i alone *)
+Corollary smtp_success_sound_nodup sc cfg msgs m msg i :
+  msg_at msgs m = Some msg -> NoDup (m_addrs msg) ->
+  reply sc (Mail m) <> R3 -> reply sc (Rcpt m (N.of_nat i)) <> R3 ->
+  reply sc (Eod m (eodix cfg (N.of_nat i))) <> R3 ->
   smtp_final sc cfg msgs m i = FDelivered ->
   reply sc (Mail m) = R2 /\ reply sc (Rcpt m (N.of_nat i)) = R2 /\
   (reply sc (Data m) = R2 \/ reply sc (Data m) = R3) /\
   reply sc (Eod m (eodix cfg (N.of_nat i))) = R2.
 Proof.
-  intros (H1 & H2 & H3) H. apply smtp_success_sound_gen in H. destruct H as (Hm & Hd & Hr & He).
-  assert (Hr2 : reply sc (Rcpt m (N.of_nat i)) = R2) by (destruct Hr; [assumption | contradiction]).
-  split; [destruct Hm; [assumption | contradiction]|]. split; [exact Hr2|]. split; [exact Hd|].
-  destruct (He (fun _ => Hr2)); [assumption | contradiction].
+  intros Hm Hnd H1 H2 H3 H. pose proof (own_refl sc cfg msgs m i H msg Hm) as Hii.
+  assert (Hg : no_r3_own sc cfg m msg i).
+  { split; [exact H1|]. intros j Hj. rewrite (own_nodup msg i j Hnd Hj). auto. }
+  destruct (smtp_success_sound sc cfg msgs m msg i Hm Hg H) as (Hml & Hd & Hr).
+  split; [exact Hml|]. unfold eodix in *. destruct (c_lmtp cfg).
+  - destruct Hr as (j & Hj & Hr2 & He). rewrite (own_nodup msg i j Hnd Hj) in Hr2, He. auto.
+  - destruct Hr as [Hall He]. auto.
 Qed.
 
 Definition sc_default (s : stage) : outcome :=
@@ -1622,7 +1876,7 @@ Definition sc_default (s : stage) : outcome :=
 Definition sc_eod3 : script :=
   mkScript (fun s => match s with Eod _ _ => R3 | _ => sc_default s end) no_exts no_exts.
 Definition cfg_plain : config := mkConfig false false false false false ConnOk.
-Definition msg1 : message := mkMsg true [true] false.
+Definition msg1 : message := mkMsg true [(0, true)] false.
 
 Theorem smtp_success_sound_3xx_refuted :
   exists sc cfg msgs m i,
@@ -1635,13 +1889,23 @@ Theorem smtp_classification sc cfg msgs m i :
 Proof.
   unfold smtp_final. pose proof (run_results_ok sc cfg msgs m) as Hok.
   destruct (lookup_res (results (run_client sc cfg msgs)) m) as [[l|c|]|] eqn:E; cbn.
-  - specialize (Hok _ eq_refl) as [_ Hj].
-    destruct (nth_error l i) as [[|c]|] eqn:En; cbn; try (split; discriminate).
-    specialize (Hj i (Failed c) En). apply (failed_excjust sc cfg msgs) in Hj.
+  - destruct (Hok _ eq_refl) as (msg & Hm & _ & Hj).
+    destruct (nth_error l i) as [[|c|]|] eqn:En; cbn; try (split; discriminate).
+    specialize (Hj i (TFailed c) En). apply (failed_excjust sc cfg msgs) in Hj.
     destruct c; cbn in *; split; try discriminate; auto.
   - specialize (Hok _ eq_refl). destruct c; cbn in *; split; try discriminate; auto.
   - split; discriminate.
   - split; discriminate.
+Qed.
+
+(* a failure reported for the address at position i has the class of an error reply to an
+   occurrence of that very address *)
+Theorem smtp_failed_own_class sc cfg msgs m l i c :
+  lookup_res (results (run_client sc cfg msgs)) m = Some (MMap l) -> nth_error l i = Some (TFailed c) ->
+  exists msg j, msg_at msgs m = Some msg /\ own msg i j /\ occ_failed sc m j c.
+Proof.
+  intros Hl Hn. destruct (smtp_result_from_own_replies sc cfg msgs m l i _ Hl Hn) as (msg & Hm & _ & j & Hj & Hf).
+  eauto.
 Qed.
 
 Theorem smtp_other_cause sc cfg msgs m i :
@@ -1649,13 +1913,14 @@ Theorem smtp_other_cause sc cfg msgs m i :
 Proof.
   unfold smtp_final. pose proof (run_results_ok sc cfg msgs m) as Hok.
   destruct (lookup_res (results (run_client sc cfg msgs)) m) as [[l|c|]|] eqn:E; cbn.
-  - destruct (nth_error l i) as [[|c]|]; cbn; try discriminate. destruct c; discriminate.
+  - destruct (nth_error l i) as [[|c|]|]; cbn; try discriminate. destruct c; discriminate.
   - destruct c; discriminate.
   - intros _. exact (Hok _ eq_refl).
   - discriminate.
 Qed.
 
-(* every recipient of every request ends in a result, a relay error, or back on the pool queue *)
+(* every position of every request ends in a result, a relay error, or back on the pool queue:
+   never a foreign exception, never a missing key in the mapping *)
 Theorem smtp_total sc cfg msgs m msg i :
   msg_at msgs m = Some msg -> (i < length (m_rcpts msg))%nat ->
   let f := smtp_final sc cfg msgs m i in
@@ -1664,39 +1929,47 @@ Proof.
   intros Hm Hi. cbn zeta.
   destruct (smtp_final sc cfg msgs m i) eqn:E; auto.
   - exfalso. apply smtp_other_cause in E. destruct E as (msg' & Hm' & Hnil).
-    rewrite Hm in Hm'. injection Hm' as <-. rewrite Hnil in Hi. cbn in Hi. lia.
+    unfold msg_at in *. rewrite Hm in Hm'. injection Hm' as <-. rewrite Hnil in Hi. cbn in Hi. lia.
   - exfalso. unfold smtp_final in E. pose proof (run_results_ok sc cfg msgs m) as Hok.
     destruct (lookup_res (results (run_client sc cfg msgs)) m) as [[l|c|]|] eqn:El; cbn in E; try discriminate.
-    + destruct (nth_error l i) as [[|c]|] eqn:En; try discriminate; [destruct c; discriminate|].
-      destruct (Hok _ eq_refl) as [(msg' & Hm' & Hlen) _]. rewrite Hm in Hm'. injection Hm' as <-.
-      apply nth_error_None in En. lia.
+    + destruct (Hok _ eq_refl) as (msg' & Hm' & Hlen & Hj).
+      unfold msg_at in *. rewrite Hm in Hm'. injection Hm' as <-.
+      destruct (nth_error l i) as [[|c|]|] eqn:En; try discriminate; [destruct c; discriminate| |].
+      * exact (Hj i TMissing En).
+      * apply nth_error_None in En. lia.
     + destruct c; discriminate.
 Qed.
 
-(* "if" directions that follow: a rejected recipient is never reported delivered, and when the
-   script holds no cause of the other class the report has the class of the rejection *)
-Corollary smtp_rejected_not_delivered sc cfg msgs m i :
-  (reply sc (Rcpt m (N.of_nat i)) = R4 \/ reply sc (Rcpt m (N.of_nat i)) = R5 \/
-   reply sc (Rcpt m (N.of_nat i)) = R500 \/
-   reply sc (Mail m) = R4 \/ reply sc (Mail m) = R5 \/ reply sc (Mail m) = R500 \/
-   reply sc (Data m) = R4 \/ reply sc (Data m) = R5 \/ reply sc (Data m) = R500) ->
+(* "if" directions: an address all of whose RCPTs were rejected (or a rejected MAIL / DATA) is never
+   reported delivered; with no cause of the other class the report has the class of the rejection *)
+Definition rcpt_err (sc : script) (stg : stage) : Prop :=
+  reply sc stg = R4 \/ reply sc stg = R5 \/ reply sc stg = R500.
+Corollary smtp_rejected_not_delivered sc cfg msgs m msg i :
+  msg_at msgs m = Some msg ->
+  ((forall j, own msg i j -> rcpt_err sc (Rcpt m (N.of_nat j))) \/ rcpt_err sc (Mail m) \/ rcpt_err sc (Data m)) ->
   smtp_final sc cfg msgs m i <> FDelivered.
 Proof.
-  intros H E. apply smtp_success_sound_gen in E. destruct E as (Hm & Hd & Hr & _).
-  unfold nonerr in *. intuition congruence.
+  intros Hm H E. pose proof (own_refl sc cfg msgs m i E msg Hm) as Hii.
+  apply smtp_success_sound_gen in E. destruct E as (msg' & Hm' & Hml & Hd & Hr).
+  unfold msg_at in *. rewrite Hm in Hm'. injection Hm' as <-. unfold nonerr, rcpt_err in *.
+  destruct H as [H|[H|H]]; [|intuition congruence|intuition congruence].
+  destruct (c_lmtp cfg).
+  - destruct Hr as [(j & Hj & Hr2 & _)|Hall].
+    + specialize (H j Hj). intuition congruence.
+    + specialize (H i Hii). specialize (Hall i Hii). intuition congruence.
+  - destruct Hr as [Hall _]. specialize (H i Hii). specialize (Hall i Hii). intuition congruence.
 Qed.
 
 Corollary smtp_5xx_permanent sc cfg msgs m msg i :
   msg_at msgs m = Some msg -> (i < length (m_rcpts msg))%nat ->
   ~ TransCause sc cfg m ->
-  (reply sc (Rcpt m (N.of_nat i)) = R5 \/ reply sc (Rcpt m (N.of_nat i)) = R500 \/
-   reply sc (Mail m) = R5 \/ reply sc (Mail m) = R500 \/ reply sc (Data m) = R5 \/ reply sc (Data m) = R500) ->
+  ((forall j, own msg i j -> rcpt_err sc (Rcpt m (N.of_nat j))) \/ rcpt_err sc (Mail m) \/ rcpt_err sc (Data m)) ->
   smtp_final sc cfg msgs m i <> FQueued ->
   smtp_final sc cfg msgs m i = FPermanent.
 Proof.
   intros Hm Hi Hnt Hrej Hq.
   destruct (smtp_total sc cfg msgs m msg i Hm Hi) as [H|[H|[H|H]]]; auto.
-  - exfalso. revert H. apply smtp_rejected_not_delivered. tauto.
+  - exfalso. revert H. now apply (smtp_rejected_not_delivered sc cfg msgs m msg).
   - exfalso. apply Hnt. now apply (smtp_classification sc cfg msgs m i).
   - contradiction.
 Qed.
@@ -1704,13 +1977,13 @@ Qed.
 Corollary smtp_4xx_transient sc cfg msgs m msg i :
   msg_at msgs m = Some msg -> (i < length (m_rcpts msg))%nat ->
   ~ PermCause sc cfg msgs m ->
-  (reply sc (Rcpt m (N.of_nat i)) = R4 \/ reply sc (Mail m) = R4 \/ reply sc (Data m) = R4) ->
+  ((forall j, own msg i j -> rcpt_err sc (Rcpt m (N.of_nat j))) \/ rcpt_err sc (Mail m) \/ rcpt_err sc (Data m)) ->
   smtp_final sc cfg msgs m i <> FQueued ->
   smtp_final sc cfg msgs m i = FTransient.
 Proof.
   intros Hm Hi Hnp Hrej Hq.
   destruct (smtp_total sc cfg msgs m msg i Hm Hi) as [H|[H|[H|H]]]; auto.
-  - exfalso. revert H. apply smtp_rejected_not_delivered. tauto.
+  - exfalso. revert H. now apply (smtp_rejected_not_delivered sc cfg msgs m msg).
   - exfalso. apply Hnp. now apply (smtp_classification sc cfg msgs m i).
   - contradiction.
 Qed.
@@ -1720,8 +1993,8 @@ Definition sc_badcode : script :=
   mkScript (fun s => match s with Banner => BadCode | _ => sc_default s end) no_exts no_exts.
 Example smtp_example_badcode_address :
   smtp_final sc_badcode cfg_plain [msg1] 0 0 = FTransient /\
-  smtp_final (mkScript sc_default no_exts no_exts) cfg_plain [mkMsg true [true; false] false] 0 0 = FPermanent /\
-  smtp_final (mkScript sc_default no_exts no_exts) cfg_plain [mkMsg false [true] false] 0 0 = FPermanent.
+  smtp_final (mkScript sc_default no_exts no_exts) cfg_plain [mkMsg true [(0, true); (1, false)] false] 0 0 = FPermanent /\
+  smtp_final (mkScript sc_default no_exts no_exts) cfg_plain [mkMsg false [(0, true)] false] 0 0 = FPermanent.
 Proof. vm_compute. repeat split; reflexivity. Qed.
 
 (* non-vacuity *)
@@ -1729,16 +2002,28 @@ Definition sc_mixed : script :=
   mkScript (fun s => match s with Rcpt 0 0 => R5 | Rcpt 0 1 => R4 | _ => sc_default s end)
            (mkExts true false false true) no_exts.
 Example smtp_example_mixed :
-  let msgs := [mkMsg true [true; true] false] in
+  let msgs := [mkMsg true [(0, true); (1, true)] false] in
   smtp_final sc_mixed cfg_plain msgs 0 0 = FPermanent /\ smtp_final sc_mixed cfg_plain msgs 0 1 = FTransient.
 Proof. cbn zeta. split; vm_compute; reflexivity. Qed.
 Example smtp_example_delivered :
   smtp_final (mkScript sc_default (mkExts true false false true) no_exts)
-             (mkConfig true false false false true ConnOk) [msg1; mkMsg true [true; true] false] 1 1 = FDelivered /\
-  no_r3 (mkScript sc_default no_exts no_exts) cfg_plain 0 0.
-Proof. split; [vm_compute; reflexivity | repeat split; discriminate]. Qed.
+             (mkConfig true false false false true ConnOk) [msg1; mkMsg true [(0, true); (1, true)] false] 1 1 = FDelivered /\
+  no_r3_own (mkScript sc_default no_exts no_exts) cfg_plain 0 msg1 0.
+Proof. split; [vm_compute; reflexivity|]. split; [discriminate|]. intros j _. split; discriminate. Qed.
+(* the same address twice: [alice; alice; nobody] answered 250, 250, 550 - and 250, 550, 250 *)
+Definition sc_rcpt (j : N) (o : outcome) : script :=
+  mkScript (fun s => match s with Rcpt 0 k => if k =? j then o else R2 | _ => sc_default s end) no_exts no_exts.
+Example smtp_example_duplicates :
+  let msgs := [mkMsg true [(7, true); (7, true); (9, true)] false] in
+  let lmtp := mkConfig true false false false false ConnOk in
+  (smtp_final (sc_rcpt 2 R5) cfg_plain msgs 0 0, smtp_final (sc_rcpt 2 R5) cfg_plain msgs 0 1,
+   smtp_final (sc_rcpt 2 R5) cfg_plain msgs 0 2) = (FDelivered, FDelivered, FPermanent) /\
+  (smtp_final (sc_rcpt 1 R5) cfg_plain msgs 0 0, smtp_final (sc_rcpt 1 R5) cfg_plain msgs 0 1,
+   smtp_final (sc_rcpt 1 R5) cfg_plain msgs 0 2) = (FPermanent, FPermanent, FDelivered) /\
+  (smtp_final (sc_rcpt 1 R5) lmtp msgs 0 0, smtp_final (sc_rcpt 1 R5) lmtp msgs 0 1,
+   smtp_final (sc_rcpt 1 R5) lmtp msgs 0 2) = (FDelivered, FDelivered, FDelivered).
+Proof. cbn zeta. repeat split; vm_compute; reflexivity. Qed.
 
-(* RelayPool.attempt over successive connections *)
 Theorem attempt_conns_sound cfg scs msg r :
   attempt_conns cfg scs msg = Some r ->
   exists sc, In sc scs /\ lookup_res (results (run_client sc cfg [msg])) 0 = Some r.
@@ -1777,7 +2062,7 @@ Qed.
 Example smtp_hangup_example :
   let sc := mkScript (fun s => match s with Ehlo => R500 | Rcpt 0 0 => R5 | Data 0 => Disconnect | _ => sc_default s end)
                      no_exts no_exts in
-  let msgs := [mkMsg true [true; true] false] in
+  let msgs := [mkMsg true [(0, true); (1, true)] false] in
   (exists s, (r_connect cfg_plain ;;; r_handshake sc cfg_plain ;;; run_loop sc cfg_plain msgs 0) st0 = (inr ASmtp, s) /\
              lookup_res (results s) (cur s) = None /\ cur s = 0) /\
   smtp_final sc cfg_plain msgs 0 1 = FTransient.
